@@ -85,11 +85,27 @@ def internOne (P : Prog) (s' : Storage) (n : NodeId) (L : Layer) : Layer :=
     | _ => L
   else L
 
+/-- the nodes reachable from `a` in the dependency graph of `s'` -/
+def reachFrom (s' : Storage) (a : NodeId) : List NodeId :=
+  (mark s'.derived (markFuel s'.derived [a]) [a] []).getD [a]
+
+/-- from the order in which bodies STARTED (pre-order of the execution tree) to the order in which
+they COMPLETED (post-order): the nodes started while `a` was running are the following ones that
+`a` reaches. -/
+def postOrder (s' : Storage) : Nat → List NodeId → List NodeId
+  | 0, l => l
+  | _, [] => []
+  | fuel + 1, a :: rest =>
+    let r := reachFrom s' a
+    let inside := rest.takeWhile (fun n => r.contains n)
+    let after := rest.dropWhile (fun n => r.contains n)
+    postOrder s' fuel inside ++ [a] ++ postOrder s' fuel after
+
 /-- one operation of the core model, replayed on the layer (`s` before, `s'` after) -/
 def Layer.step (P : Prog) (s s' : Storage) (op : Op) (L : Layer) : Layer :=
   let execd := dedup ((s'.log.take (s'.log.length - s.log.length)).reverse)
   let L := assignBoxes s s' execd L
-  let L := execd.foldl (fun L n => internOne P s' n L) L
+  let L := (postOrder s' execd.length execd).foldl (fun L n => internOne P s' n L) L
   match op with
   | .gc =>
     if s'.poisoned then L else
